@@ -190,3 +190,35 @@ func short(s string, n int) string {
 func fmtOb(o Obligation) string {
 	return fmt.Sprintf("%s [%s] %s @ %s — %s", o.Rule, o.State, o.Construct, o.Pos, o.Witness)
 }
+
+// Usage tracking of the reasoned-exception tables: an entry that no obligation consults on the current tree is
+// stale — it closes nothing today and could only hide a regression tomorrow. `-all` lists such entries.
+var justUsed = map[string]bool{}
+var justTables = map[string]map[string]string{}
+
+func jget(name string, tbl map[string]string, key string) (string, bool) {
+	justTables[name] = tbl
+	v, found := tbl[key]
+	if found {
+		justUsed[name+"\x00"+key] = true
+	}
+	return v, found
+}
+
+func jstr(name string, tbl map[string]string, key string) string {
+	v, _ := jget(name, tbl, key)
+	return v
+}
+
+func staleJustifications() []string {
+	var out []string
+	for name, tbl := range justTables {
+		for k := range tbl {
+			if !justUsed[name+"\x00"+k] {
+				out = append(out, name+": "+k)
+			}
+		}
+	}
+	sort.Strings(out)
+	return out
+}
